@@ -102,4 +102,159 @@ def cmdQExplore (toks : List String) : String :=
     | _, _, _, _, _, _ => "bad-op"
   | _ => "bad-op"
 
+/-! ### session scripts (sequential): Session L1 model + one sequential queue model per channel -/
+
+open Sess in
+structure SessDrv where
+  sess : Sess.Session
+  queues : List (Nat × Q.St) := []        -- cid ↦ queue model (sequential: newest messages are read)
+  caps : List (Nat × Nat) := []           -- writer ↦ capacity requested at creation
+
+def SessDrv.queue (d : SessDrv) (cid : Nat) : Option Q.St := (d.queues.find? (·.1 == cid)).map (·.2)
+def SessDrv.setQueue (d : SessDrv) (cid : Nat) (q : Q.St) : SessDrv :=
+  { d with queues := d.queues.filter (·.1 != cid) ++ [(cid, q)] }
+
+/-- sequential beginWrite(n) + write n + endWrite on a queue model; `none` = does not fit -/
+def qCommit (q : Q.St) (n : Nat) : Option Q.St := do
+  let q1 ← Q.step {} q (.pBegin n (q.rHist.length - 1))
+  if n ≤ q1.we - q1.wp then
+    let q2 ← Q.step {} q1 (.pWrite n)
+    Q.step {} q2 .pEnd
+  else none
+
+/-- the state after a failed beginWrite (the window may have been re-chosen) -/
+def qFailedBegin (q : Q.St) (n : Nat) : Q.St :=
+  match Q.step {} q (.pBegin n (q.rHist.length - 1)) with
+  | some q1 => q1
+  | none => q
+
+def entrySize (e : Sess.Entry) : Nat := 4 + e.payload.length
+
+/-- number of leading entries whose framed sizes add up to exactly `bytes` -/
+def countPrefix : List Sess.Entry → Nat → Nat
+  | [], _ => 0
+  | e :: es, bytes => if bytes = 0 then 0 else if entrySize e ≤ bytes then 1 + countPrefix es (bytes - entrySize e) else 0
+
+def showWrites (ws : List Sess.Write) : String := ",".intercalate (ws.map fun w => (Sess.writeBytes w).toHex)
+
+def showResult (r : Sess.ConsumeResult) : String :=
+  s!"bytes={r.bytesConsumed} total={r.totalBytesConsumed} polled={r.channelsPolled} removed={r.channelsRemoved}"
+
+def hexArg' (s : String) : Option Bytes := if s == "-" || s == "" then some [] else Bytes.ofHex s
+
+/-- run one op of a session script; returns the new driver state and the canonical segment -/
+def sessOp (d : SessDrv) (toks : List String) : SessDrv × String :=
+  match toks with
+  | ["cw", w, cap, id, name] =>
+    match w.toNat?, cap.toNat?, id.toNat?, hexArg' name with
+    | some w, some cap, some id, some name =>
+      let cid := d.sess.nextCid
+      match Sess.step d.sess (.createWriter w id name) with
+      | some s' => ({ d with sess := s', caps := d.caps ++ [(w, cap)] }.setQueue cid (Q.init cap), "cw")
+      | none => (d, "disabled")
+    | _, _, _, _ => (d, "bad-op")
+  | ["sid", w, id] =>
+    match w.toNat?, id.toNat? with
+    | some w, some id => match Sess.step d.sess (.setWriterId w id) with
+      | some s' => ({ d with sess := s' }, "sid") | none => (d, "disabled")
+    | _, _ => (d, "bad-op")
+  | ["sname", w, name] =>
+    match w.toNat?, hexArg' name with
+    | some w, some name => match Sess.step d.sess (.setWriterName w name) with
+      | some s' => ({ d with sess := s' }, "sname") | none => (d, "disabled")
+    | _, _ => (d, "bad-op")
+  | ["src", sev, cat, fn, file, line, fmt, tags] =>
+    match sev.toNat?, hexArg' cat, hexArg' fn, hexArg' file, line.toNat?, hexArg' fmt, hexArg' tags with
+    | some sev, some cat, some fn, some file, some line, some fmt, some tags =>
+      let id := d.sess.nextSourceId
+      match Sess.step d.sess (.addSource { severity := sev, category := cat, function := fn, file := file, line := line,
+                                           formatString := fmt, argumentTags := tags }) with
+      | some s' => ({ d with sess := s' }, s!"src id={id}")
+      | none => (d, "disabled")
+    | _, _, _, _, _, _, _ => (d, "bad-op")
+  | ["log", w, sid, clock, args] =>
+    match w.toNat?, sid.toNat?, clock.toNat?, hexArg' args with
+    | some w, some sid, some clock, some args =>
+      match Sess.lookupWriter d.sess w with
+      | none => (d, "disabled")
+      | some cid =>
+        let total := 4 + 16 + args.length
+        match d.queue cid with
+        | none => (d, "disabled")
+        | some q =>
+          match qCommit q total with
+          | some q' =>
+            match Sess.step d.sess (.log w sid clock args true) with
+            | some s' => ({ d with sess := s' }.setQueue cid q', "log ok=1")
+            | none => (d, "disabled")
+          | none =>
+            -- replaceChannel: capacity max(old capacity, 2 * totalSize)
+            let ncap := max q.cap (2 * total)
+            let ncid := d.sess.nextCid
+            match Sess.step d.sess (.log w sid clock args false), qCommit (Q.init ncap) total with
+            | some s', some nq =>
+              (({ d with sess := s' }.setQueue cid (qFailedBegin q total)).setQueue ncid nq, "log ok=1")
+            | _, _ => (d, "disabled")
+    | _, _, _, _ => (d, "bad-op")
+  | ["dw", w] =>
+    match w.toNat? with
+    | some w => match Sess.step d.sess (.destroyWriter w) with
+      | some s' => ({ d with sess := s' }, "dw") | none => (d, "disabled")
+    | none => (d, "bad-op")
+  | ["cs", a, b, c, e, f] =>
+    match a.toNat?, b.toNat?, c.toNat?, e.toNat?, hexArg' f with
+    | some a, some b, some c, some e, some f =>
+      match Sess.step d.sess (.setClockSync { clockValue := a, clockFrequency := b, nsSinceEpoch := c, tzOffset := e, tzName := f }) with
+      | some s' => ({ d with sess := s' }, "cs") | none => (d, "disabled")
+    | _, _, _, _, _ => (d, "bad-op")
+  | ["consume"] =>
+    -- sequential: every channel is seen completely; the split comes from the queue model
+    let step (acc : SessDrv × List Sess.Poll) (c : Sess.Chan) : SessDrv × List Sess.Poll :=
+      let (d, polls) := acc
+      match d.queue c.cid with
+      | none => (d, polls ++ [⟨true, c.entries.length, 0⟩])
+      | some q =>
+        match Q.step {} q (.cBegin (q.wHist.length - 1)) with
+        | none => (d, polls ++ [⟨true, c.entries.length, 0⟩])
+        | some q1 =>
+          let p1 := (q1.pieces.headD []).length
+          let split := if q1.pieces.length = 2 then countPrefix c.entries p1 else 0
+          let q2 := if q1.batch.isEmpty then q1 else (Q.step {} q1 .cEnd).getD q1
+          (d.setQueue c.cid q2, polls ++ [⟨true, c.entries.length, split⟩])
+    let (d, polls) := d.sess.channels.foldl step (d, [])
+    let ws := Sess.consumeWrites d.sess polls
+    let (s', r) := Sess.consume d.sess polls
+    ({ d with sess := s' }, s!"consume writes={showWrites ws} {showResult r}")
+  | ["rotate"] =>
+    let s0 := { d.sess with outputs := d.sess.outputs ++ [[]] }
+    let (s', r) := Sess.reconsumeMetadata s0
+    let ws := (s'.outputs.getLast?).getD []
+    ({ d with sess := s' }, s!"rotate writes={showWrites ws} {showResult r}")
+  | _ => (d, "bad-op")
+
+def splitOnTok (sep : String) : List String → List (List String)
+  | [] => [[]]
+  | t :: ts =>
+    match splitOnTok sep ts with
+    | [] => [[t]]
+    | g :: gs => if t == sep then [] :: g :: gs else (t :: g) :: gs
+
+/-- `session <clock,freq,ns,tz,tzname of the initial clock sync> | op | op | …` -/
+def cmdSession (toks : List String) : String :=
+  let groups := (splitOnTok "|" toks).filter (! ·.isEmpty)
+  match groups with
+  | [] => "bad-op"
+  | initG :: opGs =>
+    match initG with
+    | [a, b, c, e, f] =>
+      match a.toNat?, b.toNat?, c.toNat?, e.toNat?, hexArg' f with
+      | some a, some b, some c, some e, some f =>
+        let d0 : SessDrv := { sess := Sess.init { clockValue := a, clockFrequency := b, nsSinceEpoch := c, tzOffset := e, tzName := f } }
+        let (_, outs) := opGs.foldl (fun (acc : SessDrv × List String) g =>
+          let (d', seg) := sessOp acc.1 g
+          (d', acc.2 ++ [seg])) (d0, [])
+        ";".intercalate outs
+      | _, _, _, _, _ => "bad-op"
+    | _ => "bad-op"
+
 end BinlogVerif.ConcProto
